@@ -43,7 +43,8 @@ def run_case(case, rng):
     gamma = rng.choice([0.5, 0.9, 0.99, 1.0] * 3 + [0.0, 1e-200])   # end points: the running discount reaches exactly 0
     fam = "proper" if gamma == 1.0 or rng.random() < 0.5 else "any"
     sp = G.random_spec(rng, fam, n_max=n_max, gamma=gamma, min_states=2, allow_implicit=False,
-                       reward_sign="neg" if gamma == 1.0 else None)
+                       reward_sign="neg" if gamma == 1.0 else None,
+                       reward_scale=rng.choice([1.0] * 6 + [1e-9, 1e-12]))      # also tiny reward units
     rep = rng.choice(Bd.REPRS)
     if not rep.endswith("explicit"):
         G.restrict_to_closure(sp, rng)
@@ -274,7 +275,7 @@ def run_case(case, rng):
 
     # ================= (d) semi-MDP ========================================================================
     nsim = rng.choice([1, 3, 10])
-    sseed = rng.choice([0, 1, rng.randrange(2 ** 31)])
+    sseed = rng.choice([0, 1, rng.randrange(2 ** 31), None])     # None: the object draws its own seed once and keeps it
     inc_actions = rng.random() < 0.5
     semi = SemiMarkovDecisionProcess(mdp=mdp, options=[opt], n_option_simulations=nsim,
                                      include_mdp_actions=inc_actions, seed=sseed)
@@ -345,6 +346,7 @@ def run_case(case, rng):
             continue
         case.count("semimdp_option_outcomes")
         case.check(w.calls == nsim, "semimdp:number-of-simulations-differs", f"{w.calls} vs {nsim}")
+        runit = max([abs(v_) for v_ in sp.R.values()] + [1e-300])      # the model's reward unit (rewards may be ~1e-12)
         emp = {}
         for sim, exc in captured:
             n = check_traj(sim, s, opt, "semimdp-sim")
@@ -359,7 +361,10 @@ def run_case(case, rng):
         for (ns, t, cr), p in got.items():
             cnt = round(p * nsim)
             lst = remaining.get((ns, t), [])
-            hits = [x for x in lst if abs(x - cr) <= 1e-9 * max(1.0, abs(cr))]
+            # (returns that are equal up to summation order may be reported under separate float keys: each reported
+            # outcome takes its `cnt` nearest still-unmatched simulations within the tolerance)
+            hits = sorted([x for x in lst if abs(x - cr) <= 1e-9 * max(abs(cr), abs(x)) + 1e-12 * runit],
+                          key=lambda x: abs(x - cr))[:cnt]
             if abs(p * nsim - cnt) > 1e-9 or len(hits) != cnt:
                 ok = False
                 break
@@ -387,7 +392,7 @@ def run_case(case, rng):
             case.check(set(g2) == set(want) and all(abs(g2[k] - want[k]) < 1e-12 for k in want), "semimdp:next-state-marginal-inconsistent", "")
         if ecr is not case.FAIL:
             want = math.fsum(p * cr for (ns, t, cr), p in got.items())
-            case.check(abs(ecr - want) <= 1e-9 * max(1.0, abs(want)), "semimdp:expected_cumulative_reward-inconsistent", f"{ecr!r} vs {want!r}")
+            case.check(abs(ecr - want) <= 1e-9 * abs(want) + 1e-12 * runit, "semimdp:expected_cumulative_reward-inconsistent", f"{ecr!r} vs {want!r}")
     if len(S) >= 3 and gamma < 1:
         case.nontrivial = True
     case.sig(fam, rep, len(S), len(A), gamma, max_steps, nsim, len(terminal), len(initial), inc_actions)
